@@ -5,6 +5,7 @@ import (
 	"fmt"
 	"os"
 	"path/filepath"
+	"regexp"
 	"strings"
 	"sync"
 	"testing"
@@ -195,6 +196,14 @@ func oracleC05(l *harness.Live) (c05Info, *harness.Failure) {
 		}
 		want[i] = runPlan(fresh, l.Expr, l, p)
 	}
+	if xast.HasCall(l.AST, "matches", "replace") {
+		// The sequential runs above have filled the shared pattern cache. Start the concurrent
+		// phase with an empty (and small) one - a client is entitled to install its own - so
+		// that misses, inserts and capacity resets happen while other goroutines read.
+		saved := xpath.RegexpCache
+		xpath.RegexpCache = xpath.NewLoadingCache(func(key interface{}) (interface{}, error) { return regexp.Compile(key.(string)) }, 2)
+		defer func() { xpath.RegexpCache = saved }()
+	}
 	before := raceLogSize()
 	got := make([][]string, len(plans))
 	var wg sync.WaitGroup
@@ -258,13 +267,24 @@ func TestC05Rapid(t *testing.T) {
 		var e xast.Expr
 		nodeSet := false
 		switch rapid.IntRange(0, 9).Draw(rt, "c05frag") {
+		case 2:
+			// several fresh patterns in one expression: every goroutine goes through several
+			// miss/insert cycles of the shared pattern cache while the others are reading it
+			c := &xast.Call{Name: "concat"}
+			n := rapid.IntRange(2, 4).Draw(rt, "npat")
+			for i := 0; i < n; i++ {
+				pat := rapid.SampledFrom(regexPatterns).Draw(rt, "mpat") + "|y{" + fmt.Sprint(rapid.IntRange(1, 900).Draw(rt, "mpatn")) + "}"
+				c.Args = append(c.Args, &xast.Call{Name: "replace", Args: []xast.Expr{&xast.Str{S: "abab"}, &xast.Str{S: pat}, &xast.Str{S: "-"}}})
+			}
+			e = c
 		case 0:
 			// regex functions through the shared pattern cache
 			arg := xast.Expr(g.FlatPath(nil))
 			if rapid.Bool().Draw(rt, "regexlit") {
 				arg = &xast.Str{S: rapid.SampledFrom([]string{"a", "ab", "T", "12", ""}).Draw(rt, "rs")}
 			}
-			pat := &xast.Str{S: rapid.SampledFrom(regexPatterns).Draw(rt, "pat")}
+			// a fresh pattern per case: the first goroutines miss the shared cache and insert while the others read
+			pat := &xast.Str{S: rapid.SampledFrom(regexPatterns).Draw(rt, "pat") + "|z{" + fmt.Sprint(rapid.IntRange(1, 900).Draw(rt, "patn")) + "}"}
 			if rapid.Bool().Draw(rt, "replace") {
 				e = &xast.Call{Name: "replace", Args: []xast.Expr{arg, pat, &xast.Str{S: rapid.SampledFrom([]string{"", "x", "$1", "[$1]"}).Draw(rt, "rep")}}}
 			} else {
